@@ -15,7 +15,8 @@ from sim import popgen, seams, userlib
 from sim.core import canon, canon_frame, code_hash, describe_callable, digest
 
 
-DATA_FORMS = ["frame", "frame", "dict", "dict_conv", "frame_conv", "series_dict_mixed"]
+DATA_FORMS = ["frame", "frame", "dict", "dict_conv", "frame_conv", "series_dict_mixed", "two_units"]
+DERIVE_OPS = ["move_out", "permute_middle", "tweak_value", "swap_labels", "relabel_hh"]
 
 
 # =========================================================================== generation
@@ -30,11 +31,15 @@ def gen_history(run_seed: int, cfg: dict) -> dict:
     n_pops = r.choice([1, 2, 2, 3])
     pops = {}
     for k in range(n_pops):
-        pops[f"p{k}"] = {"seed": r.randrange(1 << 30), "year": int(r.choice(dates)[:4]), "max_rows": r.choice([3, 5, 8, 12])}
+        if k > 0 and r.random() < 0.45:
+            # a "what-if" variant of an earlier population: same persons, one thing changed
+            pops[f"p{k}"] = {"derive": f"p{r.randrange(k)}", "how": r.choice(DERIVE_OPS), "k": r.randrange(1 << 16)}
+        else:
+            pops[f"p{k}"] = {"seed": r.randrange(1 << 30), "year": int(r.choice(dates)[:4]), "max_rows": r.choice([3, 5, 8, 12])}
     faults = cfg.get("faults", True)
     # swarm weights per history
     style = r.choice(["mixed", "mixed", "mixed", "compute_heavy", "reform_heavy", "rewrite_first", "setup_heavy", "fault_heavy" if faults else "mixed"])
-    w = {"SETUP": 1.5, "COMPUTE": 6, "REPEAT": 2, "REFORM": 2, "REVERT": 1, "REPLACE": 1.6, "ALIAS": 0.5, "DEEPCOPY": 0.5, "REWRITE": 0.8, "BADDATA": 0.7}
+    w = {"SETUP": 1.5, "COMPUTE": 6, "REPEAT": 2, "REFORM": 2, "REVERT": 1, "REPLACE": 1.6, "ALIAS": 0.5, "DEEPCOPY": 0.5, "REWRITE": 0.8, "BADDATA": 0.7, "SWEEP": 0.5 if faults else 0}
     if style == "compute_heavy":
         w.update(COMPUTE=10, REPEAT=4, REWRITE=0.3)
     elif style == "reform_heavy":
@@ -42,7 +47,7 @@ def gen_history(run_seed: int, cfg: dict) -> dict:
     elif style == "setup_heavy":
         w.update(SETUP=6)
     elif style == "fault_heavy":
-        w.update(BADDATA=3)
+        w.update(BADDATA=3, SWEEP=2)
     p_abort = 0.0 if not faults else {"fault_heavy": 0.35}.get(style, r.choice([0.0, 0.08, 0.15]))
     p_io = 0.0 if not faults else {"fault_heavy": 0.4}.get(style, r.choice([0.0, 0.1, 0.2]))
     n_ops = r.randint(5, cfg.get("max_ops", 16))
@@ -69,7 +74,10 @@ def gen_history(run_seed: int, cfg: dict) -> dict:
             # half log-uniform (early windows), half uniform (late windows) over the ~50 k line events of a set-up
             op["abort"] = int(10 ** r.uniform(0, 4.78)) if r.random() < 0.5 else r.randint(1, 52000)
         elif r.random() < p_io:
-            op["iofault"] = {"n": r.randint(1, 159), "kind": r.choice(["EIO", "ENOENT", "EACCES", "SHORT", "SHORT"]), "cut": round(r.uniform(0.05, 0.95), 3)}
+            if r.random() < 0.3:
+                op["listfault"] = {"n": r.randint(1, 3), "kind": r.choice(["LIST_EIO", "LIST_SHORT"]), "cut": round(r.uniform(0.1, 0.9), 3)}
+            else:
+                op["iofault"] = {"n": r.randint(1, 159), "kind": r.choice(["EIO", "ENOENT", "EACCES", "SHORT", "SHORT"]), "cut": round(r.uniform(0.05, 0.95), 3)}
         if e not in handles:
             handles.append(e)
             n_reforms[e] = 0
@@ -89,15 +97,26 @@ def gen_history(run_seed: int, cfg: dict) -> dict:
         }
         if r.random() < 0.22:
             op["agg"] = r.choice([k for k in userlib.AGG_SPECS if k != "none"])
+        if r.random() < 0.08:
+            op["um_fail"] = True
+        if r.random() < p_io * 0.5:
+            op["listfault"] = {"n": r.randint(1, 6), "kind": r.choice(["LIST_EIO", "LIST_SHORT"]), "cut": round(r.uniform(0.1, 0.9), 3)}
         if r.random() < p_abort:
             op["abort"] = int(10 ** r.uniform(0, 5.08)) if r.random() < 0.5 else r.randint(1, 105000)
         return op
 
+    def first_setup():
+        st = mk_setup()
+        st.pop("abort", None)
+        st.pop("iofault", None)
+        st.pop("listfault", None)
+        return st
+
     if style == "rewrite_first":
-        ops.append(mk_setup())
+        ops.append(first_setup())
         ops.append({"op": "REWRITE", "e": handles[0], "which": "all", "kind": r.choice(["func", "func", "source"])})
     else:
-        ops.append(mk_setup())
+        ops.append(first_setup())
     while len(ops) < n_ops:
         kinds = [k for k in w if w[k] > 0]
         k = r.choices(kinds, [w[x] for x in kinds])[0]
@@ -148,6 +167,21 @@ def gen_history(run_seed: int, cfg: dict) -> dict:
                 op["fracs"] = [round(r.random(), 6) for _ in range(r.randint(1, 25))]
             if r.random() < p_abort:
                 op["abort"] = int(10 ** r.uniform(0, 4.3))
+            ops.append(op)
+        elif k == "SWEEP":
+            what = r.choice(["REWRITE", "REWRITE", "COMPUTE", "COMPUTE", "SETUP"])
+            op = {"op": "SWEEP", "what": what, "e": r.choice(handles)}
+            if what == "REWRITE":
+                op.update(frac=round(r.random(), 6), stride=r.choice([1, 1, 2, 3]), offset=r.randrange(3))
+            elif what == "COMPUTE":
+                stride = r.choice([1500, 2500, 4000])
+                op.update(stride=stride, offset=r.randrange(stride), max_aborts=40, compute={**mk_compute(), "reuse": True})
+                op["compute"].pop("abort", None)
+                op["compute"].pop("listfault", None)
+                op["compute"]["e"] = op["e"]
+            else:
+                stride = r.choice([5000, 8000])
+                op.update(stride=stride, offset=r.randrange(stride), max_aborts=8, date=hdate.get(op["e"], r.choice(dates)))
             ops.append(op)
         elif k == "BADDATA":
             ops.append({"op": "BADDATA", "e": r.choice(handles), "pop": r.choice(sorted(pops)), "fault": r.choice(["dup_pid", "self_ptr", "drop_col", "frac_int", "hh_var", "obj_dtype"]), "row": r.randrange(64), "form": r.choice(["frame", "dict"])})
@@ -202,8 +236,53 @@ def normalize(history: dict) -> dict:
 # =========================================================================== shared helpers
 
 
+def resolve_pop_recipe(pops: dict, key: str, depth=0) -> dict:
+    """Self-contained recipe (derived populations carry their base recipe inline)."""
+    rec = pops[key]
+    if "derive" in rec and isinstance(rec["derive"], str) and depth < 5:
+        return {**rec, "derive": resolve_pop_recipe(pops, rec["derive"], depth + 1)}
+    return rec
+
+
 def build_population(pop_recipe: dict) -> dict:
+    if "derive" in pop_recipe:
+        return derive_population(build_population(pop_recipe["derive"]), pop_recipe["how"], pop_recipe["k"])
     return popgen.generate(pop_recipe["seed"], pop_recipe["year"], max_rows=pop_recipe["max_rows"])
+
+
+def derive_population(pop: dict, how: str, k: int) -> dict:
+    """A 'what-if' variant: the same persons with one thing changed (still valid)."""
+    r = random.Random(f"derive:{how}:{k}")
+    cols = {c: list(v) for c, v in pop["cols"].items()}
+    n = len(cols["p_id"])
+    pid = cols["p_id"]
+    ptr = [c for c in cols if c.startswith("p_id_")]
+    if how == "move_out":
+        pointed = {v for c in ptr for v in cols[c] if v >= 0}
+        hh_size = {h: cols["hh_id"].count(h) for h in set(cols["hh_id"])}
+        cand = [i for i in range(n) if cols["alter"][i] >= 18 and cols["p_id_einstandspartner"][i] < 0 and cols["p_id_ehepartner"][i] < 0 and pid[i] not in pointed and hh_size[cols["hh_id"][i]] >= 2]
+        if cand:
+            i = r.choice(cand)
+            cols["hh_id"][i] = max(cols["hh_id"]) + 1
+    elif how == "permute_middle" and n >= 4:
+        mid = list(range(1, n - 1))
+        r.shuffle(mid)
+        order = [0, *mid, n - 1]
+        cols = {c: [v[i] for i in order] for c, v in cols.items()}
+    elif how == "tweak_value":
+        i = r.randrange(n)
+        c = r.choice(["bruttolohn_m", "kapitaleink_brutto_m", "vermögen_bedürft", "sonstig_eink_m"])
+        if c in cols:
+            cols[c][i] = cols[c][i] + r.choice([100.25, 1000.0, 0.5])
+    elif how == "swap_labels" and n >= 2:
+        a, b = r.sample(range(n), 2)
+        m = {pid[a]: pid[b], pid[b]: pid[a]}
+        cols["p_id"] = [m.get(v, v) for v in pid]
+        for c in ptr:
+            cols[c] = [m.get(v, v) for v in cols[c]]
+    elif how == "relabel_hh":
+        cols["hh_id"] = [h + 7 for h in cols["hh_id"]]
+    return {**pop, "cols": cols, "seed": f"{pop.get('seed')}/{how}/{k}"}
 
 
 def make_data(pop: dict, form: str):
@@ -227,7 +306,13 @@ def make_data(pop: dict, form: str):
                 df[c] = v.astype(np.float64)
             elif t is bool:
                 df[c] = v.astype(np.int64 if rr.random() < 0.5 else np.float64)
-    if form in ("frame", "frame_conv"):
+    if form == "two_units":
+        # the same quantity supplied in two time units (deliberately not consistent to
+        # the last cent): which one wins must not depend on anything but the call
+        for src, dst, f in (("bruttolohn_m", "bruttolohn_w", 0.25), ("eink_selbst_m", "eink_selbst_y", 12.5), ("sonstig_eink_m", "sonstig_eink_w", 0.2)):
+            if src in df.columns:
+                df[dst] = df[src].to_numpy() * f + 1.0
+    if form in ("frame", "frame_conv", "two_units"):
         return df
     d = {c: df[c] for c in df.columns}
     if form == "series_dict_mixed":
@@ -313,7 +398,14 @@ def call_compute(data, params, functions, targets, op):
             from gettsim import config
 
             targets = sorted(set(config.DEFAULT_TARGETS) | set(extra))
-    return run_call(data, params, functions, targets=targets, rounding=op["rounding"], debug=op["debug"], check_minimal_specification=op["cms"], **kw)
+    import os
+
+    if op.get("um_fail"):
+        os.environ["VERIF_UM_FAIL"] = "1"
+    try:
+        return run_call(data, params, functions, targets=targets, rounding=op["rounding"], debug=op["debug"], check_minimal_specification=op["cms"], **kw)
+    finally:
+        os.environ.pop("VERIF_UM_FAIL", None)
 
 
 def rewrite_targets(op, functions: dict) -> list:
@@ -467,17 +559,22 @@ def run_session(history: dict, opts: dict | None = None) -> dict:
                     objs = ({k: dict(v) for k, v in g.items()}, {k: dict(v) for k, v in p.items()})
                     op = {**op, "_agg_objs": objs}
                     data_objs[f"aggspecs{i}/specs"] = list(objs)
+            elif kind == "SWEEP" and op["what"] == "COMPUTE" and op.get("e") in envs:
+                prepared = _get_data(op["compute"], pops, data_objs, history)
+                op = {**op, "_prepared": prepared}
             elif kind == "BADDATA" and op.get("e") in envs:
                 pk = op["pop"]
                 if pk not in pops:
-                    pops[pk] = build_population(history["pops"][pk])
+                    pops[pk] = build_population(resolve_pop_recipe(history["pops"], pk))
                 bad = apply_data_fault(make_data(pops[pk], op["form"]), op["fault"], op["row"])
                 data_objs[f"bad{i}/{op['form']}"] = bad
                 prepared = bad
             before = _snapshot_all(envs, data_objs)
             try:
                 if kind == "SETUP":
-                    _do_setup(op, envs, ev, set_up_policy_environment)
+                    _do_setup(op, envs, ev, set_up_policy_environment, rg)
+                elif kind == "SWEEP":
+                    _do_sweep(op, envs, pops, data_objs, history, ev, set_up_policy_environment)
                 elif kind in ("ALIAS", "DEEPCOPY"):
                     src = envs.get(op["e"])
                     if src is None:
@@ -527,7 +624,7 @@ def run_session(history: dict, opts: dict | None = None) -> dict:
                     op_rec = {**op, "_i": i}
                     if "abort" not in op:
                         last_compute = op_rec
-                    line_events += _do_compute(op, envs, prepared, history, ev)
+                    line_events += _do_compute(op, envs, prepared, history, ev, rg)
                 elif kind == "BADDATA":
                     _do_baddata(op, envs, prepared, ev)
                 elif kind == "REWRITE":
@@ -555,7 +652,7 @@ def run_session(history: dict, opts: dict | None = None) -> dict:
                 ev["abort_at"] = str(e)
             after = _snapshot_all(envs, data_objs)
             # I1 purity: nothing the caller owns may change during a *library* call
-            if kind in ("SETUP", "COMPUTE", "BADDATA", "REWRITE"):
+            if kind in ("SETUP", "COMPUTE", "BADDATA", "REWRITE", "SWEEP"):
                 changed = sorted(k for k in before if k in after and before[k] != after[k])
                 if changed:
                     # report by kind (object ids are process specific)
@@ -608,7 +705,24 @@ def _replace_in_list(base, op):
     return [*base, {name: f}], name
 
 
-def _do_setup(op, envs, ev, set_up):
+def _do_setup(op, envs, ev, set_up, rg=None):
+    if "listfault" in op and rg is not None:
+        rg.arm(op["listfault"])
+        try:
+            try:
+                set_up(op["date"])
+                ev["outcome"] = {"kind": "discarded"}
+            except Exception as e:  # noqa: BLE001
+                ev["outcome"] = {"kind": "exc", "cls": type(e).__name__}
+        finally:
+            fired = rg.fired
+            rg.disarm()
+        ev["faults"] = {"listfault": {"fired": fired, "kind": op["listfault"]["kind"]}}
+        if fired:
+            # the directory listing failed or was incomplete: no result is expected, the handle stays as it was
+            ev["status"] = "iofault"
+            return
+        # the fault did not fire (fewer listings than n): fall through to a normal set-up
     inj = seams.AbortInjector(op.get("abort")) if "abort" in op else None
     io = seams.ReadFaults(op["iofault"]["n"], op["iofault"]["kind"], op["iofault"].get("cut", 0.5)) if "iofault" in op else None
     try:
@@ -651,7 +765,7 @@ def _do_setup(op, envs, ev, set_up):
 def _get_data(op, pops, data_objs, history):
     pk = op["pop"]
     if pk not in pops:
-        pops[pk] = build_population(history["pops"][pk])
+        pops[pk] = build_population(resolve_pop_recipe(history["pops"], pk))
     key = f"{pk}/{op['form']}"
     if op.get("reuse") and key in data_objs:
         return data_objs[key], key, True
@@ -660,12 +774,25 @@ def _get_data(op, pops, data_objs, history):
     return data, key, False
 
 
-def _do_compute(op, envs, prepared, history, ev) -> int:
+def _do_compute(op, envs, prepared, history, ev, rg=None) -> int:
     env = envs.get(op["e"])
     if env is None:
         ev["status"] = "skipped"
         return 0
     data, key, reused = prepared
+    if "listfault" in op and rg is not None:
+        targets0 = resolve_targets(op["targets"], _as_dict(env.functions))
+        rg.arm(op["listfault"])
+        try:
+            res = call_compute(data, env.box.params, env.functions, targets0, op)
+        finally:
+            fired = rg.fired
+            rg.disarm()
+        ev["faults"] = {"listfault": {"fired": fired, "kind": op["listfault"]["kind"]}}
+        if fired:
+            ev["status"] = "iofault"
+            ev["outcome"] = {"kind": "discarded", "was": res[0]}
+            return 0
     targets = resolve_targets(op["targets"], _as_dict(env.functions))
     # a user who replaced a column looks at that column: request it as a target too
     watched = sorted({x["name"] for x in env.repl if x.get("name") and not x["variant"].startswith("copy:")})
@@ -697,15 +824,112 @@ def _do_compute(op, envs, prepared, history, ev) -> int:
         "date": env.box.date,
         "reforms": [{"group": rf["group"], "path": rf["path"], "new": rf["new"]} for rf in env.box.reforms],
         "repl": [dict(x) for x in env.repl],
-        "pop": history["pops"][op["pop"]],
+        "pop": resolve_pop_recipe(history["pops"], op["pop"]),
         "form": op["form"],
         "targets": targets,
         "rounding": op["rounding"],
         "debug": op["debug"],
         "cms": op["cms"],
         "agg": op.get("agg"),
+        "um_fail": bool(op.get("um_fail")),
     }
     return lines
+
+
+def _do_sweep(op, envs, pops, data_objs, history, ev, set_up):
+    """Abort one kind of call at a regular grid of line events (a crash-point sweep).
+    One uninterrupted execution measures the length (and is compared like a normal call);
+    the purity snapshot around the whole op and the calls that follow in the history
+    detect residue left by *any* of the abort points."""
+    env = envs.get(op["e"])
+    if env is None:
+        ev["status"] = "skipped"
+        return
+    what = op["what"]
+    armed = fired = 0
+    tl = 0  # line events executed under the injector in this op
+    if what == "REWRITE":
+        from _gettsim.vectorization import make_vectorizable
+
+        fdict = _as_dict(env.functions)
+        name = userlib.resolve_name(fdict, op["frac"])
+        f = fdict[name]
+        ev["resolved"] = name
+        with seams.AbortInjector(None) as cnt:
+            try:
+                make_vectorizable(f, "numpy")
+            except Exception:  # noqa: BLE001
+                pass
+        L = cnt.count
+        for k in range(1 + op["offset"], L + 1, op["stride"]):
+            armed += 1
+            inj = seams.AbortInjector(k)
+            try:
+                with inj:
+                    make_vectorizable(f, "numpy")
+            except seams.SimAbort:
+                fired += 1
+            except Exception:  # noqa: BLE001
+                pass
+            tl += inj.count
+    elif what == "COMPUTE":
+        cop = op["compute"]
+        data, key, reused = op["_prepared"]
+        targets = resolve_targets(cop["targets"], _as_dict(env.functions))
+        with seams.AbortInjector(None) as cnt:
+            res = call_compute(data, env.box.params, env.functions, targets, cop)
+        L = cnt.count
+        ev["outcome"] = outcome_of_compute(res)
+        ev["ref"] = _compute_ref(env, history, cop, targets)
+        ks = list(range(1 + op["offset"], L + 1, op["stride"]))[: op["max_aborts"]]
+        for k in ks:
+            armed += 1
+            inj = seams.AbortInjector(k)
+            try:
+                with inj:
+                    call_compute(data, env.box.params, env.functions, targets, cop)
+            except seams.SimAbort:
+                fired += 1
+            tl += inj.count
+    else:  # SETUP
+        with seams.AbortInjector(None) as cnt:
+            try:
+                params, functions = set_up(op["date"])
+                ev["outcome"] = outcome_of_setup(params, functions)
+            except Exception as e:  # noqa: BLE001
+                ev["outcome"] = {"kind": "exc", "cls": type(e).__name__}
+        ev["ref"] = {"kind": "SETUP", "date": op["date"]}
+        L = cnt.count
+        ks = list(range(1 + op["offset"], L + 1, op["stride"]))[: op["max_aborts"]]
+        for k in ks:
+            armed += 1
+            inj = seams.AbortInjector(k)
+            try:
+                with inj:
+                    set_up(op["date"])
+            except seams.SimAbort:
+                fired += 1
+            except Exception:  # noqa: BLE001
+                pass
+            tl += inj.count
+    ev["faults"] = {"abort_sweep": {"what": what, "armed": armed, "fired": fired, "lines": L, "lines_executed": tl + L}}
+
+
+def _compute_ref(env, history, op, targets):
+    return {
+        "kind": "COMPUTE",
+        "date": env.box.date,
+        "reforms": [{"group": rf["group"], "path": rf["path"], "new": rf["new"]} for rf in env.box.reforms],
+        "repl": [dict(x) for x in env.repl],
+        "pop": resolve_pop_recipe(history["pops"], op["pop"]),
+        "form": op["form"],
+        "targets": targets,
+        "rounding": op["rounding"],
+        "debug": op["debug"],
+        "cms": op["cms"],
+        "agg": op.get("agg"),
+        "um_fail": bool(op.get("um_fail")),
+    }
 
 
 def _do_baddata(op, envs, data, ev):
